@@ -183,7 +183,9 @@ func secWire(h *hctx, r *lib.RNG) {
 				p.MerkleRoot = h256(append(append([]byte{}, p.MerkleRoot.Elements...), 7))
 			})
 			mut("everything-nil", func(p *pb.PropellerUnit) { *p = pb.PropellerUnit{} })
-			mut("only-shards", func(p *pb.PropellerUnit) { *p = pb.PropellerUnit{Shards: &pb.ShardsOfPeer{Shards: []*pb.Shard{{Data: sh}}}} })
+			mut("only-shards", func(p *pb.PropellerUnit) {
+				*p = pb.PropellerUnit{Shards: &pb.ShardsOfPeer{Shards: []*pb.Shard{{Data: sh}}}}
+			})
 		}
 	}
 }
